@@ -124,6 +124,8 @@ func main() {
 			res["what"] = v.What
 		}
 		json.NewEncoder(os.Stdout).Encode(res)
+	case "digest":
+		callsim.Digest17(*seed, int64(*w), int64(*nw), *repo, func(l string) { fmt.Println(l) })
 	case "corpus":
 		callsim.CorpusStats(*repo, 12)
 	case "replay":
